@@ -1,5 +1,7 @@
 //! Engine for Gas.tla (C13): drives revm_interpreter::Gas.
-use crate::common::*;
+#[path = "../common.rs"]
+mod common;
+use common::*;
 use revm_interpreter::Gas;
 use serde_json::{json, Value};
 
@@ -65,5 +67,15 @@ impl Engine for GasEngine {
             o => panic!("unknown op {o}"),
         }
         self.proj(s)
+    }
+}
+
+fn main() {
+    let a = Args::parse();
+    let eng = GasEngine { big: a.geti("big", 0) };
+    match a.mode.as_str() {
+        "edges" => run_edges(&eng, &a.input, a.output.as_deref()),
+        "behaviours" => run_behaviours(&eng, &a.input, a.output.as_deref()),
+        m => a.bad_mode(m),
     }
 }
